@@ -104,12 +104,7 @@ def run(ctx):
     files = []
     for k in range(0, kmax + 1):
         for p in itertools.permutations(names, k):
-            if k <= 1 or ctx.thorough:
-                combos = itertools.product(STEMS, STYLES)
-            else:
-                # quick: pairs get every stem and every style, but not their full product
-                i = len(files)
-                combos = [(STEMS[i % 6], STYLES[i % 3]), (STEMS[(i + 1) % 6], STYLES[(i + 1) % 3])]
+            combos = itertools.product(STEMS, STYLES)
             for stem, style in combos:
                 files.append((p, stem, style))
     chunks = [files[i::ctx.jobs * 2] for i in range(ctx.jobs * 2)]
